@@ -154,7 +154,7 @@ theorem closeFn_graphTail (f : Nat) (toks : List Tok) (acc ns : List GNode) (res
     all_goals grind
 
 theorem closeFn_graphLeaf {r rest : List Tok} {t : PExp} (h : graphLeaf r = some (t, rest)) : closeFn r = closeFn rest := by
-  simp only [graphLeaf] at h
+  simp only [graphLeaf, graphNodes] at h
   have := closeFn_graphTail
   have := @closeFn_graphNode
   rw [← closeFn_skipNl r]
